@@ -136,3 +136,294 @@ pub fn arb_fields_perturbed() -> SBoxedStrategy<Fields> {
         })
         .sboxed()
 }
+
+// ---------------------------------------------------------------------------------------------
+// local time types, rules, leap tables, zones
+use crate::model::{MDay, MLtt, MRule, MTrailer, MZone, N_NOTATIONS};
+use crate::orule::{self, Class};
+
+const NAME_ALPHABET: &[u8] = b"ABCDEFGHIJKLMNOPQRSTUVWXYZabcdefghijklmnopqrstuvwxyz0123456789+-";
+
+pub fn arb_name() -> SBoxedStrategy<Option<String>> {
+    prop_oneof![
+        1 => Just(None),
+        3 => proptest::sample::select(vec!["UTC", "CET", "CEST", "LMT", "EST", "EDT", "AAA", "BBB", "-03", "+0530", "ABCDEFG"]).prop_map(|s| Some(s.to_string())),
+        2 => proptest::collection::vec(0usize..NAME_ALPHABET.len(), 3..=7).prop_map(|v| Some(v.into_iter().map(|i| NAME_ALPHABET[i] as char).collect())),
+    ]
+    .sboxed()
+}
+
+pub fn arb_offset_wide() -> SBoxedStrategy<i32> {
+    prop_oneof![
+        2 => Just(0i32),
+        5 => (-56i32..=60).prop_map(|k| k * 900),
+        2 => -3600i32..3600,
+        2 => -90000i32..=93600,
+        1 => (i32::MIN + 1)..=i32::MAX,
+        1 => proptest::sample::select(vec![i32::MAX, i32::MIN + 1, 1, -1, 59, -59, 86400, -86400, 3 * 86400, -3 * 86400]),
+    ]
+    .sboxed()
+}
+
+pub fn arb_offset_rule() -> SBoxedStrategy<i32> {
+    prop_oneof![
+        1 => Just(0i32),
+        5 => (-48i32..=56).prop_map(|k| k * 900),
+        2 => -3600i32..3600,
+        2 => -89_999i32..=93_599,
+        1 => proptest::sample::select(vec![-89_999i32, 93_599, 1, -1]),
+    ]
+    .sboxed()
+}
+
+pub fn arb_ltt_wide() -> SBoxedStrategy<MLtt> {
+    (arb_offset_wide(), any::<bool>(), arb_name()).prop_map(|(off, dst, name)| MLtt { off, dst, name }).sboxed()
+}
+
+fn arb_rule_time() -> SBoxedStrategy<i32> {
+    prop_oneof![
+        3 => (0i32..=96).prop_map(|k| k * 900),
+        2 => (-167i32..=167).prop_map(|h| h * 3600),
+        2 => (-6i32..=6, -1i32..=1).prop_map(|(d, e)| d * 86400 + e),
+        2 => -604_799i32..=604_799,
+        1 => proptest::sample::select(vec![-604_799i32, 604_799, 7200, 0, 86400]),
+    ]
+    .sboxed()
+}
+
+#[derive(Debug, Clone, serde::Serialize, serde::Deserialize)]
+pub struct ClassedRule {
+    pub rule: MRule,
+    pub class: Class,
+}
+
+/// Rules accepted by the constructor, with their class measured over a full 400-year cycle. Ties and overlaps are constructed directly.
+pub fn arb_rule() -> SBoxedStrategy<ClassedRule> {
+    let raw = (
+        (prop_oneof![3 => 0u8..7, 3 => 7u8..9, 1 => Just(9u8), 1 => 10u8..12], 0..N_NOTATIONS, 0..N_NOTATIONS, -3i64..=3, 0i64..400),
+        (arb_offset_rule(), prop_oneof![4 => Just(None), 3 => arb_offset_rule().prop_map(Some)], 0u8..4),
+        (arb_rule_time(), arb_rule_time(), 0i64..3 * 86400),
+        (arb_name(), arb_name()),
+    );
+    raw.prop_filter_map("rule refused by the constructor (or construction impossible)", |((mode, si, ei, near, year), (so, doff_opt, dmode), (stt, et0, extra), (n1, n2))| {
+        let mut start = MDay::from_index(si);
+        let mut end = if mode % 3 == 0 { MDay::from_index((si as i64 + near).clamp(0, N_NOTATIONS as i64 - 1) as usize) } else { MDay::from_index(ei) };
+        let doff = match doff_opt {
+            Some(d) => d,
+            None => match dmode {
+                0 | 1 => (so as i64 + 3600).min(93_599) as i32,
+                2 => so,
+                _ => (so as i64 - 3600).max(-89_999) as i32,
+            },
+        };
+        let mut et = et0;
+        let y = 2000 + year;
+        match mode {
+            7 | 8 => {
+                // tie in year y: S(y) == E(y); partner notation chosen close to the start day so that the needed time shift is small
+                if mode == 7 {
+                    end = MDay::from_index((si as i64 + near).clamp(0, N_NOTATIONS as i64 - 1) as usize);
+                } else {
+                    // another notation kind naming (about) the same day in year y: ties in year y, usually not in all years
+                    let doy = start.abs_day(y) - cal::days_from_civil(y, 1, 1) + near;
+                    end = if ei % 2 == 0 { MDay::J0(doy.clamp(0, 365) as u16) } else { MDay::J1((doy + 1).clamp(1, 365) as u16) };
+                    if ei % 3 == 0 {
+                        std::mem::swap(&mut start, &mut end);
+                    }
+                }
+                let d = -(start.abs_day(y) - end.abs_day(y)) * 86400;
+                let e = stt as i64 - so as i64 + doff as i64 - d;
+                if e.abs() >= 604_800 {
+                    return None;
+                }
+                et = e as i32;
+            }
+            9 => {
+                // overlap: DST period longer than a year (E(y) >= S(y+1) for every y)
+                start = if si % 2 == 0 { MDay::J1((si % 12) as u16 + 1) } else { MDay::J0((si % 12) as u16) };
+                end = if ei % 2 == 0 { MDay::J1(365 - (ei % 10) as u16) } else { MDay::J0(365 - (ei % 10) as u16) };
+                let mut d2min = i64::MAX;
+                for yy in 2000..2400 {
+                    d2min = d2min.min(end.abs_day(yy) - start.abs_day(yy + 1));
+                }
+                let d = d2min * 86400 - extra;
+                let e = stt as i64 - so as i64 + doff as i64 - d;
+                if e.abs() >= 604_800 {
+                    return None;
+                }
+                et = e as i32;
+            }
+            _ => {}
+        }
+        // distinct designations so that the two halves are always distinguishable
+        let name_s = n1.or(Some("STD".to_string()));
+        let mut name_d = n2.or(Some("DST".to_string()));
+        if name_d == name_s {
+            name_d = Some("DDD".to_string());
+        }
+        let rule = MRule { std: MLtt { off: so, dst: false, name: name_s }, dst: MLtt { off: doff, dst: true, name: name_d }, start, start_time: stt, end, end_time: et };
+        let class = orule::classify(&rule);
+        if class == Class::Unstable || rule.to_tz().is_err() {
+            return None;
+        }
+        Some(ClassedRule { rule, class })
+    })
+    .sboxed()
+}
+
+/// Valid leap tables: first time >= 0 with correction +-1, steps +-1, gaps from {minimal, +1, +2, days, years}; or the real table.
+pub fn arb_leap_table(max: usize) -> SBoxedStrategy<Vec<(i64, i32)>> {
+    let gap = prop_oneof![
+        3 => Just(28 * 86400i64 - 1),
+        1 => Just(28 * 86400i64),
+        1 => Just(28 * 86400i64 + 1),
+        3 => (28i64..2000).prop_map(|d| d * 86400),
+        2 => (28 * 86400i64..40_000_000),
+        1 => (1i64..4000).prop_map(|y| y * 31_556_952),
+    ];
+    let first = prop_oneof![2 => Just(0i64), 3 => 0i64..2_000_000_000, 1 => 0i64..(1i64 << 61)];
+    let steps = proptest::collection::vec((gap, prop_oneof![3 => Just(1i32), 2 => Just(-1i32)]), 0..max);
+    let gen = (first, prop_oneof![3 => Just(1i32), 2 => Just(-1i32)], steps).prop_map(|(t0, c0, steps)| {
+        let mut v = vec![(t0, c0)];
+        let (mut t, mut c) = (t0, c0);
+        for (g, s) in steps {
+            match t.checked_add(g) {
+                Some(nt) => t = nt,
+                None => break,
+            }
+            c += s;
+            v.push((t, c));
+        }
+        v
+    });
+    prop_oneof![
+        1 => Just(vec![]),
+        5 => gen,
+        2 => (0usize..=27).prop_map(|n| crate::oleap::real_table()[..n].to_vec()),
+    ]
+    .sboxed()
+}
+
+#[derive(Debug, Clone, Copy)]
+pub struct ZoneCfg {
+    pub max_trans: usize,
+    pub leaps: bool,
+    /// allow i64-wide transition times (otherwise |t| stays below 4e10)
+    pub wide_times: bool,
+}
+
+fn arb_gap() -> SBoxedStrategy<i64> {
+    prop_oneof![
+        2 => Just(1i64),
+        2 => 2i64..100,
+        3 => 100i64..7200,
+        3 => (1i64..48).prop_map(|h| h * 1800),
+        4 => 86400i64..40_000_000,
+        2 => 30_000_000i64..3_000_000_000,
+        1 => (1i64 << 40)..(1i64 << 62),
+    ]
+    .sboxed()
+}
+
+/// Valid zones by construction (all six shapes): table only / rule only / table+fixed / table+DST rule, each with or without leap table.
+/// The last transition's type is set to what the trailer prescribes at its switch instant (O-leap + O-rule).
+pub fn arb_zone(cfg: ZoneCfg) -> SBoxedStrategy<MZone> {
+    let start = if cfg.wide_times {
+        prop_oneof![
+            1 => Just(i64::MIN + 1),
+            1 => Just(i64::MIN),
+            2 => -(1i64 << 62)..(1i64 << 62),
+            4 => -40_000_000_000i64..40_000_000_000,
+            4 => -2_000_000_000i64..2_000_000_000,
+        ]
+        .sboxed()
+    } else {
+        prop_oneof![
+            4 => -40_000_000_000i64..40_000_000_000,
+            4 => -2_000_000_000i64..2_000_000_000,
+        ]
+        .sboxed()
+    };
+    let leaps = if cfg.leaps { prop_oneof![3 => Just(vec![]), 2 => arb_leap_table(10)].sboxed() } else { Just(vec![]).sboxed() };
+    let trans_raw = proptest::collection::vec((arb_gap(), any::<u32>()), 0..=cfg.max_trans);
+    (
+        (0u8..8, proptest::collection::vec(arb_ltt_wide(), 1..6), arb_rule(), arb_ltt_wide()),
+        (start, trans_raw, leaps, any::<u32>()),
+    )
+        .prop_map(|((shape, mut types, cr, fixed), (t0, raw, leaps, pos))| {
+            // shape: 0,1 table only; 2 rule only; 3 fixed only; 4 table+fixed; 5,6,7 table+rule
+            let trailer = match shape {
+                0 | 1 => MTrailer::None,
+                3 | 4 => MTrailer::Fixed(fixed.clone()),
+                _ => MTrailer::Alt(cr.rule.clone()),
+            };
+            let rule_zone = matches!(trailer, MTrailer::Alt(_));
+            let want_table = !matches!(shape, 2 | 3);
+            // make sure the trailer's types are present in the table's type list (random position)
+            let ins = |types: &mut Vec<MLtt>, t: &MLtt, p: u32| -> usize {
+                let at = crate::run::idx(p, types.len() + 1);
+                types.insert(at, t.clone());
+                at
+            };
+            match &trailer {
+                MTrailer::Fixed(f) => {
+                    ins(&mut types, f, pos);
+                }
+                MTrailer::Alt(r) => {
+                    ins(&mut types, &r.std, pos);
+                    ins(&mut types, &r.dst, pos.rotate_left(13));
+                }
+                MTrailer::None => {}
+            }
+            let mut trans: Vec<(i64, usize)> = vec![];
+            if want_table && !(rule_zone && !cr.class.interleaves()) {
+                let limit = if rule_zone { 60_000_000_000_000_000i64 } else { i64::MAX };
+                let mut t = if rule_zone { t0.clamp(-limit, limit) } else { t0 };
+                for (k, (gap, ti)) in raw.iter().enumerate() {
+                    if k > 0 {
+                        match t.checked_add(*gap) {
+                            Some(nt) if nt <= limit => t = nt,
+                            _ => break,
+                        }
+                    }
+                    trans.push((t, crate::run::idx(*ti, types.len())));
+                }
+            }
+            let mut z = MZone { trans, types, leaps, trailer };
+            // fix the last transition's type to what the trailer prescribes at its switch instant
+            if let Some(&(t_last, _)) = z.trans.last() {
+                let want: Option<MLtt> = match &z.trailer {
+                    MTrailer::None => None,
+                    MTrailer::Fixed(f) => Some(f.clone()),
+                    MTrailer::Alt(r) => {
+                        if t_last == i64::MIN {
+                            z.trans.clear();
+                            None
+                        } else {
+                            match crate::oleap::g(&z.leaps, t_last) {
+                                Some(u) => Some(if orule::is_dst(r, cr.class, u) { r.dst.clone() } else { r.std.clone() }),
+                                None => {
+                                    z.trans.clear();
+                                    None
+                                }
+                            }
+                        }
+                    }
+                };
+                if let (Some(w), false) = (want, z.trans.is_empty()) {
+                    if matches!(z.trailer, MTrailer::Fixed(_)) && t_last == i64::MIN {
+                        // last transition at i64::MIN with a trailer: pinned refusal (unspecified corner) - move it
+                        let n = z.trans.len();
+                        if n == 1 {
+                            z.trans[0].0 = i64::MIN + 1;
+                        }
+                    }
+                    let at = z.types.iter().position(|t| *t == w).expect("trailer type present");
+                    let n = z.trans.len();
+                    z.trans[n - 1].1 = at;
+                }
+            }
+            z
+        })
+        .sboxed()
+}
